@@ -8,7 +8,8 @@ SEQ_OWN_MSGS = "[when(not sequence._abs_stale, sequence._abs._messages), when(no
 SEQ_OWN_VIEWS = "[when(not sequence._abs_stale, sequence._abs), when(not sequence._rel_stale, sequence._rel)]"
 contract("Bar.__init__", params={"self": "ref:Bar", "sequence": "ref:Sequence", "numerator": "int", "denominator": "int", "key": "enum:Key?", "default_channel": "int"},
          trusted=True, allocates=True,
-         note="the constructor stores its arguments; it normalises / pads / re-signs the sequence it is given and writes nothing else (its functional content is C10, bounded)",
+         note="frame of the constructor (A): it normalises / pads / re-signs the sequence it is given and writes nothing but the new bar and that sequence; "
+              "its functional clauses are verified separately (contract Bar.__init__#c10, weak frame)",
          requires=[PROTO("sequence")],
          raises={"BarException": "True"},
          modifies={"sequence": "[self]", "time_signature_numerator": "[self]", "time_signature_denominator": "[self]", "key_signature": "[self]",
@@ -18,6 +19,27 @@ contract("Bar.__init__", params={"self": "ref:Bar", "sequence": "ref:Sequence", 
                                        " and self.key_signature == key and is_none(self.key_signature) == is_none(key)"),
                   ("proto", PROTO("sequence"))],
          props=["C16"])
+
+SR = "sequence._rel._messages"
+TS_ = "MessageType.TIME_SIGNATURE"
+# the functional side of the constructor (C10), verified with NO frame claim on messages and lists
+contract("Bar.__init__#c10", params={"self": "ref:Bar", "sequence": "ref:Sequence", "numerator": "int", "denominator": "int", "key": "enum:Key?", "default_channel": "int"},
+         allocates=True, cases=["sequence._abs_stale", "sequence._rel_stale", "not sequence._abs_stale and not sequence._rel_stale"],
+         requires=[PROTO("sequence"), "denominator > 0 and numerator >= 0"],
+         raises={"BarException": "True"},
+         modifies={"sequence": "[self]", "time_signature_numerator": "[self]", "time_signature_denominator": "[self]", "key_signature": "[self]",
+                   "_abs": "[sequence]", "_rel": "[sequence]", "_abs_stale": "[sequence]", "_rel_stale": "[sequence]",
+                   "@msgfields": "*", "@lists": "*", "_messages": "*"},
+         ensures=[("stores_arguments", "self.sequence == sequence and self.time_signature_numerator == numerator and self.time_signature_denominator == denominator"
+                                       " and self.key_signature == key and is_none(self.key_signature) == is_none(key)"),
+                  ("proto", PROTO("sequence")),
+                  # C10: a bar is only constructed when its capacity is a whole number of ticks (otherwise BarException)
+                  ("whole_capacity", "divides(denominator, numerator * PPQN * 4)"),
+                  ("relative_view_is_the_fresh_one", "not sequence._rel_stale and sequence._abs_stale"),
+                  # ... and its relative view starts with exactly one time signature, the bar's own
+                  ("one_signature_first", f"len({SR}) >= 1 and {SR}[0].message_type == {TS_} and {SR}[0].numerator == numerator and {SR}[0].denominator == denominator"
+                                          f" and forall(1, len({SR}), lambda j: {SR}[j].message_type != {TS_})")],
+         props=["C10"])
 
 S = "self.sequence"
 contract("Bar.copy", params={"self": "ref:Bar"}, result="ref:Bar", allocates=True,
